@@ -529,7 +529,7 @@ func cmdWire(args []string) int {
 	}
 	node, err := NewNode(ctx, NodeOpts{ID: 1, Stores: append([]e2wtypes.Store{st0}, fx.Stores...), Perms: map[string][]*checker.Permissions{
 		"client1": {{Path: "Wallet 1", Operations: []string{"All"}}, {Path: "Wallet 2", Operations: []string{"All"}}, {Path: "Wallet N", Operations: []string{"All"}}, {Path: "Wallet D", Operations: []string{"All"}}}},
-		PeersMap: map[uint64]string{1: "signer-test01:10001", 2: "signer-test02:10002"}})
+		PeersMap: map[uint64]string{1: "signer-test01:10001", 2: "signer-test02:10002", 3: "signer-test03:10003"}})
 	if err != nil {
 		fmt.Fprintln(os.Stderr, err)
 		return 2
@@ -576,7 +576,17 @@ func cmdWire(args []string) int {
 			d := &pb.SignRequest{Id: &pb.SignRequest_PublicKey{PublicKey: rng.Bytes(48)}, Domain: mkDomain([]byte{2, 0, 0, 0}, 1), Data: fill32(5)}
 			timed("Sign by an unknown public key", func() { _, _ = nsh.Sign(hctx, d) })
 			stats["other.Sign-unknown-key"]++
-		case 12, 13:
+		case 12:
+			// a distributed generation for fewer participants than there are peers (the peers cannot be reached here)
+			if rng.Chance(40) {
+				name := fmt.Sprintf("Wallet D/gen%d", i)
+				d := &pb.GenerateRequest{Account: name, Passphrase: []byte("pass"), Participants: 2, SigningThreshold: 2}
+				timed(fmt.Sprintf("Generate(%q, n=2, t=2) on an instance with three peers", name), func() { _, _ = ah.Generate(hctx, d) })
+				stats["other.Generate-fewer-than-peers"]++
+				continue
+			}
+			fallthrough
+		case 13:
 			// account creation in a plain and in a distributed wallet, one participant
 			name := fmt.Sprintf("%s/new%d", []string{"Wallet N", "Wallet D"}[rng.Intn(2)], i)
 			d := &pb.GenerateRequest{Account: name, Passphrase: []byte("pass"), Participants: 1, SigningThreshold: 1}
@@ -661,6 +671,31 @@ func cmdWire(args []string) int {
 	}
 	if n := len(node.Process.VerifSessions()); n != 0 {
 		monFail = append(monFail, fmt.Sprintf("key-generation messages from non-peers left %d generation(s) behind", n))
+	}
+
+	// ---- listing requests in flight at the same time, each with account patterns not seen before ----
+	if !hung {
+		_ = os.WriteFile(lastReq, []byte("concurrent Lister.ListAccounts requests with fresh account patterns (Wallet 1/Account <n>.*)"), 0o644)
+		var lwg sync.WaitGroup
+		lctx := ctxWithClient(ctx, "client1", "10.0.0.1")
+		for w := 0; w < 8; w++ {
+			lwg.Add(1)
+			go func(w int) {
+				defer lwg.Done()
+				defer func() { _ = recover() }()
+				for j := 0; j < 60; j++ {
+					_, _ = lh.ListAccounts(lctx, &pb.ListAccountsRequest{Paths: []string{fmt.Sprintf("Wallet 1/Account %d.*|x%d", j%3, w*1000+j), fmt.Sprintf("Wallet 2/(Account|y%d_%d).*", w, j)}})
+				}
+			}(w)
+		}
+		ldone := make(chan struct{})
+		go func() { lwg.Wait(); close(ldone) }()
+		select {
+		case <-ldone:
+			stats["other.concurrent-listing"] = 480
+		case <-time.After(60 * time.Second):
+			monFail = append(monFail, "concurrent ListAccounts requests were not all answered within 60 s")
+		}
 	}
 
 	// ---- still answering: valid requests in parallel with oversized / malformed batches ----
